@@ -98,7 +98,9 @@ class ProbeStep(ProbeMixin, Step):
 
     def next_update(self, timestep, states):
         st = self._state(states)
-        k = self.last_k       # a step's oracle is indexed by its poll count
+        # a step's oracle is indexed by its poll count (an engine that starts a step without consulting its
+        # update condition leaves no poll behind: the oracles report that, the probe must not crash on it)
+        k = getattr(self, 'last_k', self.k_cond)
         u = _eval_upd(self.spec['upd'], k, 0, st)
         if self.ctx is not None:
             self.ctx.log.append({'e': 'stepInvoke', 'p': self.spec['pid'], 'k': k, 't': self.ctx.now(),
